@@ -25,7 +25,8 @@ def indexerOf? (j : Json) : Option Ix := do
   let errors ← jOpt? (fun x => jStr? x >>= modeOf?) (← jField? j "errors")
   let retries ← jOpt? jNat? (← jField? j "retries")
   let backoff ← jOpt? jNat? (← jField? j "backoff")
-  some ⟨id, res, want, errors, retries, backoff⟩
+  let timeout ← jOpt? jNat? (← jField? j "timeout")
+  some ⟨id, res, want, errors, retries, backoff, timeout⟩
 
 def pairOf? (j : Json) : Option (Option String × J) := do
   match ← jArr? j with
@@ -67,7 +68,7 @@ def indexJson (ix : Index (Option String) J String) : Json :=
 def hstateJson (h : HState) : Json :=
   .arr #[.num (JsonNumber.fromNat h.retries),
          (match h.delayed with | some d => .num (JsonNumber.fromNat d) | none => .null),
-         .bool h.failed]
+         .bool h.failed, .num (JsonNumber.fromNat h.started)]
 
 def snapshot (ids objs : List String) (s : St) : Json :=
   Json.mkObj [
@@ -112,6 +113,7 @@ def labelOf? (j : Json) : Option (Lb × Option (Nat × Bool)) := do
     | [.str "arrive", r, o, g, t] => do some (Label.arrive (← jStr? r) (← jStr? o) (← jBool? g) (← jBool? t))
     | [.str "listed", r] => do some (Label.listed (← jStr? r))
     | [.str "index", r, o] => do some (Label.index (← jStr? r) (← jStr? o))
+    | [.str "indexFail", r, o] => do some (Label.indexFail (← jStr? r) (← jStr? o))
     | [.str "drop", r, o] => do some (Label.drop (← jStr? r) (← jStr? o))
     | [.str "pass", r, o] => do some (Label.pass (← jStr? r) (← jStr? o))
     | [.str "skip", r, o] => do some (Label.skip (← jStr? r) (← jStr? o))
@@ -122,7 +124,8 @@ def labelOf? (j : Json) : Option (Lb × Option (Nat × Bool)) := do
     | _ => none
   some (l, snap)
 
-def toggles (s : GS) : Nat := (if s.blocker then 1 else 0) + s.resTog.length + s.objTog.length
+def toggles (s : GS) : Nat :=
+  (if s.blocker then 1 else 0) + s.resTog.length + s.objTog.length + s.leaked.length
 
 def isHandle : Lb → Bool
   | .handle _ _ => true
